@@ -23,7 +23,7 @@ from .registry import specfn, lemma, ghost_var, GHOSTS
 from . import speclib as L
 
 FS = TDict(TStr, TBytes)
-HI = TDict(TInt, TInt)     # used as total maps: the Option layer is not used for the handle tables
+HI = TDict(TFile, TInt)     # used as total maps: the Option layer is not used for the handle tables
 _OB = sort(TOpt(TBytes))
 _b, _c = z3.Consts("fw_d fw_c", BYTES)
 _p, _q, _n = z3.Ints("fw_p fw_q fw_n")
@@ -68,7 +68,7 @@ def install():
     """declare the ghost state (called by contract modules that use files)"""
     ghost_var("fs", FS)
     ghost_var("fh_state", HI)
-    ghost_var("fh_path", TDict(TInt, TStr))
+    ghost_var("fh_path", TDict(TFile, TStr))
     ghost_var("fh_pos", HI)
 
 
